@@ -46,7 +46,9 @@ import (
 
 const nParties = 6
 
-var denoms = []string{"erc20/usdc", "bnb", "cosmo", "ibc/atom"}
+// the last two are impostors: bank denominations are case sensitive, so they are DIFFERENT coins from the allowed
+// "cosmo" / "ibc/atom"; they are never on the allow list, users hold them, and converting them must be refused
+var denoms = []string{"erc20/usdc", "bnb", "cosmo", "ibc/atom", "Cosmo", "ibc/ATOM"}
 
 var tokenMeta = map[string]types.AllowedCosmosCoinERC20Token{
 	"erc20/usdc": types.NewAllowedCosmosCoinERC20Token("erc20/usdc", "Wrapped USDC coin", "WUSDC", 6),
@@ -203,7 +205,8 @@ func (w *world) observe(ctx sdk.Context, ss *seqState, touched map[string][]int,
 		return false
 	})
 	o.tags = append([]string{}, ss.tags...)
-	p := w.k.GetParams(ctx)
+	var p types.Params
+	kapp.ReadParams(w.tApp, ctx, "evmutil", &p) // what the store holds, not what the keeper reports
 	for _, cp := range p.EnabledConversionPairs {
 		o.pairs = append(o.pairs, pair{w.tagOf(ss, cp.GetAddress()), cp.Denom})
 	}
@@ -386,7 +389,7 @@ func (w *world) seq(out *c.Out, seq int, r *c.Rng) {
 
 	// ---- reachable start state: funding through the real keepers only
 	for u := 2; u <= 4; u++ {
-		for _, d := range []string{"cosmo", "ibc/atom"} {
+		for _, d := range []string{"cosmo", "ibc/atom", "Cosmo", "ibc/ATOM"} {
 			if r.Chance(80) {
 				must(w.tApp.FundAccount(ctx, w.bankA[u], sdk.NewCoins(sdk.NewCoin(d, sdkmath.NewInt(r.Range(1, 2000))))))
 			}
@@ -500,8 +503,10 @@ func (w *world) seq(out *c.Out, seq int, r *c.Rng) {
 			amt = amount(r, pre.ebal[idx(pre.tags, x)][a], x == "x1")
 		case "cc2e":
 			x = c.Pick(r, denoms)
-			if r.Chance(88) {
+			if r.Chance(80) {
 				x = denoms[2+r.Intn(2)]
+			} else if r.Chance(50) {
+				x = denoms[4+r.Intn(2)] // a look-alike of an allowed denomination
 			}
 			holder(pre.bank[idx(denoms, x)])
 			amt = amount(r, pre.bank[idx(denoms, x)][a], false)
@@ -546,6 +551,9 @@ func (w *world) seq(out *c.Out, seq int, r *c.Rng) {
 		case "allow":
 			a, b = 0, 0
 			for _, i := range subset(r, len(denoms)) {
+				if i >= 4 {
+					continue // impostor denominations are never allowed
+				}
 				if i >= 2 || r.Chance(15) { // rarely a pair denom is also an allowed cosmos denom
 					nlAllow = append(nlAllow, denoms[i])
 				}
